@@ -92,7 +92,8 @@ type invRec struct {
 
 // serveScenario runs Serve over the scripted reads; handlers block until every read has happened, then snapshot.
 func serveScenario(v6 bool, reads [][]byte) (outs [][]byte) {
-	synctest.Test(syncT, func(t *testing.T) {
+	bubbleNote = trunc((Case{map[bool]int{false: eServer4, true: eServer6}[v6], reads}).Line(), 800)
+	runBubble(func(t *testing.T) {
 		conn := &serverConn{reads: reads, closed: make(chan struct{})}
 		gate := make(chan struct{})
 		var mu sync.Mutex
